@@ -75,6 +75,40 @@ impl Op {
 
 type Fail = (String, String); // (class, detail)
 
+const W16: u64 = 1 << 16;
+const W32: u64 = 1 << 32;
+
+/// ids to look up: every id (or, for long sequences, the ids at the probe positions) with its
+/// neighbours and its aliases one / two offset-widths away (x ± 2^16, x ± 2^17, x ± 2^32)
+fn lookup_probes(chunks: &[Vec<u64>], model: &[u64]) -> BTreeSet<u64> {
+    let base: Vec<u64> = if model.len() <= 1000 { model.to_vec() } else { probe_positions(chunks).into_iter().map(|i| model[i]).collect() };
+    let mut probes: BTreeSet<u64> = BTreeSet::new();
+    for m in base {
+        probes.insert(m);
+        for d in [1, W16, 2 * W16, W32] {
+            if let Some(x) = m.checked_add(d) {
+                probes.insert(x);
+            }
+            if let Some(x) = m.checked_sub(d) {
+                probes.insert(x);
+            }
+        }
+    }
+    probes
+}
+
+/// positions at which `get` is compared: all for short sequences, probe positions otherwise
+fn get_positions(chunks: &[Vec<u64>], n: usize) -> Vec<usize> {
+    if n <= 1000 {
+        (0..n + 2).collect()
+    } else {
+        let mut v = probe_positions(chunks);
+        v.push(n);
+        v.push(n + 1);
+        v
+    }
+}
+
 fn seg_kind(chunk: &[u64]) -> &'static str {
     match vcore::catch(|| U64Segment::from_slice(chunk)) {
         Err(_) => "Unbuildable",
@@ -137,7 +171,7 @@ fn run_op(chunks: &[Vec<u64>], op: &Op) -> Result<(), Fail> {
                 if back != model {
                     return Err(("rev-iter".into(), format!("reverse iteration gives {}", short(&back))));
                 }
-                for i in 0..n + 2 {
+                for i in get_positions(chunks, n) {
                     let want = model.get(i).copied();
                     if seq.get(i) != want {
                         return Err(("get".into(), format!("get({i}) = {:?}, expected {want:?}", seq.get(i))));
@@ -153,13 +187,10 @@ fn run_op(chunks: &[Vec<u64>], op: &Op) -> Result<(), Fail> {
                     Err(e) => return Err(("serde-error".into(), e.to_string())),
                 }
                 let t = RowIdTreeMap::from(&seq);
-                let mut probes: BTreeSet<u64> = model.iter().copied().collect();
-                for m in &model {
-                    probes.insert(m.wrapping_add(1));
-                    probes.insert(m.wrapping_sub(1));
-                }
+                let probes = lookup_probes(chunks, &model);
+                let idset: std::collections::HashSet<u64> = model.iter().copied().collect();
                 for p in probes {
-                    if t.contains(p) != model.contains(&p) {
+                    if t.contains(p) != idset.contains(&p) {
                         return Err(("treemap-membership".into(), format!("RowIdTreeMap::from(seq).contains({p}) = {}", t.contains(p))));
                     }
                 }
@@ -179,7 +210,8 @@ fn run_op(chunks: &[Vec<u64>], op: &Op) -> Result<(), Fail> {
             Op::Delete { ids } => {
                 let mut s = seq.clone();
                 s.delete(ids.iter().copied());
-                let want: Vec<u64> = model.iter().copied().filter(|x| !ids.contains(x)).collect();
+                let idset: std::collections::HashSet<u64> = ids.iter().copied().collect();
+                let want: Vec<u64> = model.iter().copied().filter(|x| !idset.contains(x)).collect();
                 let got: Vec<u64> = s.iter().collect();
                 if got != want {
                     return Err(("wrong-ids".into(), format!("after delete({ids:?}) = {}, expected {}", short(&got), short(&want))));
@@ -193,7 +225,8 @@ fn run_op(chunks: &[Vec<u64>], op: &Op) -> Result<(), Fail> {
                 if let Err(e) = s.mask(pos.iter().copied()) {
                     return Err(("error".into(), e.to_string()));
                 }
-                let want: Vec<u64> = model.iter().enumerate().filter(|(i, _)| !pos.contains(&(*i as u32))).map(|(_, x)| *x).collect();
+                let posset: std::collections::HashSet<u32> = pos.iter().copied().collect();
+                let want: Vec<u64> = model.iter().enumerate().filter(|(i, _)| !posset.contains(&(*i as u32))).map(|(_, x)| *x).collect();
                 let got: Vec<u64> = s.iter().collect();
                 if got != want {
                     return Err(("wrong-ids".into(), format!("after mask({pos:?}) = {}, expected {}", short(&got), short(&want))));
@@ -249,7 +282,9 @@ fn run_op(chunks: &[Vec<u64>], op: &Op) -> Result<(), Fail> {
             Op::OffsetRanges { allow, block } => {
                 let mask = RowIdMask { allow_list: allow.as_ref().map(|a| tree(a)), block_list: block.as_ref().map(|b| tree(b)) };
                 let got = seq.mask_to_offset_ranges(&mask);
-                let sel = |x: u64| allow.as_ref().map(|a| a.contains(&x)).unwrap_or(true) && !block.as_ref().map(|b| b.contains(&x)).unwrap_or(false);
+                let aset: Option<std::collections::HashSet<u64>> = allow.as_ref().map(|a| a.iter().copied().collect());
+                let bset: Option<std::collections::HashSet<u64>> = block.as_ref().map(|b| b.iter().copied().collect());
+                let sel = |x: u64| aset.as_ref().map(|a| a.contains(&x)).unwrap_or(true) && !bset.as_ref().map(|b| b.contains(&x)).unwrap_or(false);
                 let want = group(model.iter().enumerate().filter(|(_, x)| sel(**x)).map(|(i, _)| i as u64));
                 // adjacent ranges need not be coalesced (one group per segment): compare the offsets
                 let flat = |rs: &[std::ops::Range<u64>]| -> Vec<u64> { rs.iter().flat_map(|r| r.clone()).collect() };
@@ -292,13 +327,10 @@ fn run_op(chunks: &[Vec<u64>], op: &Op) -> Result<(), Fail> {
                 if seg.range() != want_range {
                     return Err(("range".into(), format!("range() = {:?}, expected {want_range:?}", seg.range())));
                 }
-                let mut probes: BTreeSet<u64> = model.iter().copied().collect();
-                for m in &model {
-                    probes.insert(m.wrapping_add(1));
-                    probes.insert(m.wrapping_sub(1));
-                }
+                let probes = lookup_probes(chunks, &model);
+                let posmap: std::collections::HashMap<u64, usize> = model.iter().enumerate().map(|(i, x)| (*x, i)).collect();
                 for p in probes {
-                    let want = model.iter().position(|x| *x == p);
+                    let want = posmap.get(&p).copied();
                     if seg.position(p) != want {
                         return Err(("position".into(), format!("position({p}) = {:?}, expected {want:?}", seg.position(p))));
                     }
@@ -306,7 +338,7 @@ fn run_op(chunks: &[Vec<u64>], op: &Op) -> Result<(), Fail> {
                         return Err(("contains".into(), format!("contains({p}) = {}", seg.contains(p))));
                     }
                 }
-                for i in 0..n + 2 {
+                for i in get_positions(chunks, n) {
                     if seg.get(i) != model.get(i).copied() {
                         return Err(("get".into(), format!("segment get({i}) = {:?}", seg.get(i))));
                     }
@@ -457,6 +489,34 @@ fn encoding_chunks() -> Vec<(&'static str, Vec<u64>)> {
     ]
 }
 
+/// width-boundary family (a): nearly contiguous ranges spanning more than 2^16 (resp. 2 * 2^16) ids
+/// behind one or two holes near the start (the encoder chooses RangeWithHoles / RangeWithBitmap)
+fn width_range_chunks() -> Vec<Vec<u64>> {
+    let mut out = vec![];
+    for base in [0u64, 1000] {
+        for (holes, len) in [(vec![10u64], W16 + 300), (vec![10, 20], 2 * W16 + 300), (vec![1, 65_000], W16 + 66_000)] {
+            out.push((base..base + len).filter(|x| !holes.contains(&(x - base))).collect());
+        }
+    }
+    out
+}
+
+/// width-boundary family (b): short sorted / unsorted arrays whose values straddle an offset width
+/// (2^16, 2^32) relative to the first value
+fn width_array_chunks() -> Vec<Vec<u64>> {
+    let mut out = vec![];
+    for base in [0u64, 1000] {
+        for w in [W16, W32] {
+            for last in [w - 1, w, w + 5] {
+                out.push(vec![base, base + 5, base + last]);
+                out.push(vec![base + 5, base + last, base]);
+            }
+            out.push(vec![base, base + 5, base + w - 1, base + w, base + w + 5, base + 2 * w + 5]);
+        }
+    }
+    out
+}
+
 fn probe_positions(chunks: &[Vec<u64>]) -> Vec<usize> {
     let n: usize = chunks.iter().map(|c| c.len()).sum();
     if n <= 6 {
@@ -474,6 +534,23 @@ fn probe_positions(chunks: &[Vec<u64>]) -> Vec<usize> {
             // around a hole of the long encodings
             p.insert(off + 16);
             p.insert(off + 17);
+        }
+        if c.len() > 60_000 {
+            // width-boundary family: the ids around the first holes and the ids one and two
+            // offset-widths (2^16) behind every hole
+            let mut holes = vec![];
+            for w in c.windows(2).take(70_000) {
+                if w[1] > w[0] + 1 && holes.len() < 2 {
+                    holes.push(w[0] + 1);
+                }
+            }
+            for h in holes {
+                for x in [h - 1, h + 1, h + W16 - 1, h + W16, h + W16 + 1, h + 2 * W16, h + 2 * W16 + 1] {
+                    if let Ok(i) = c.binary_search(&x) {
+                        p.insert(off + i);
+                    }
+                }
+            }
         }
         off += c.len();
     }
@@ -531,7 +608,9 @@ fn ops_for(chunks: &[Vec<u64>], thorough: bool) -> Vec<Op> {
     let n = model.len();
     let pp = probe_positions(chunks);
     let small = n <= 6;
-    let sub_max = if small { 6 } else if thorough { 3 } else { 2 };
+    // long (width-boundary) subjects: single probe ids / positions only, every op rebuilds 65k+ ids
+    let big = n > 1000;
+    let sub_max = if small { 6 } else if big { 1 } else if thorough { 3 } else { 2 };
     let mut ops = vec![Op::Observe];
     if chunks.len() == 1 {
         ops.push(Op::Segment);
@@ -651,7 +730,7 @@ fn ops_for(chunks: &[Vec<u64>], thorough: bool) -> Vec<Op> {
     // mask_to_offset_ranges
     let mut mids = probe_ids.clone();
     mids.push(absent);
-    let msub = subsets_of(&mids, if small { 7 } else { 2 });
+    let msub = subsets_of(&mids, if small { 7 } else if big { 1 } else { 2 });
     for s in &msub {
         ops.push(Op::OffsetRanges { allow: Some(s.clone()), block: None });
         ops.push(Op::OffsetRanges { allow: None, block: Some(s.clone()) });
@@ -667,7 +746,7 @@ fn ops_for(chunks: &[Vec<u64>], thorough: bool) -> Vec<Op> {
     }
     // select_row_ids
     ops.push(Op::SelectRowIds { p: Params::Full });
-    let mut cuts: Vec<usize> = if small { (0..=n + 1).collect() } else { pp.iter().copied().chain([n, n + 1]).collect() };
+    let mut cuts: Vec<usize> = if small { (0..=n + 1).collect() } else if big { pp.iter().copied().step_by(2).chain([n, n + 1]).collect() } else { pp.iter().copied().chain([n, n + 1]).collect() };
     cuts.dedup();
     for a in &cuts {
         ops.push(Op::SelectRowIds { p: Params::To(*a) });
@@ -722,6 +801,16 @@ fn subjects(ctx: &Ctx) -> Vec<Vec<Vec<u64>>> {
                 subs.push(vec![pool[a].clone(), pool[b].clone(), pool[c].clone()]);
             }
         }
+    }
+    // width-boundary families
+    for c in width_array_chunks() {
+        subs.push(vec![c.clone()]);
+        subs.push(vec![vec![7_000_000, 7_000_001], c.clone()]);
+    }
+    for c in width_range_chunks() {
+        subs.push(vec![c.clone()]);
+        subs.push(vec![vec![7_000_000, 7_000_001, 7_000_002], c.clone()]);
+        subs.push(vec![c, vec![7_000_002, 7_000_000, 7_000_001]]);
     }
     // short multi-chunk subjects over the small alphabet (every split of every short list)
     for l in f1_lists(ctx.tier.pick(3, 4)) {
@@ -808,6 +897,12 @@ fn check_index(case: &Value) -> Vec<Violation> {
             for p in probes.clone() {
                 probes.insert(p.wrapping_add(1));
                 probes.insert(p.wrapping_sub(1));
+                if model.len() <= 1000 {
+                    for d in [W16, 2 * W16, W32] {
+                        probes.insert(p.wrapping_add(d));
+                        probes.insert(p.wrapping_sub(d));
+                    }
+                }
             }
             probes.insert(0);
             probes.insert(MAXID);
@@ -838,6 +933,23 @@ fn check_index(case: &Value) -> Vec<Violation> {
                 out.push(Violation::new("rowid-index", &format!("index/get/{class}/{key_shape}"),
                     format!("get({p}) = {got:?}, expected {want:?} ({} ids disagree)", bad.len()), case.clone()));
             }
+        }
+    }
+    out
+}
+
+/// RowIdIndex over the width-boundary chunks: alone and behind a small fragment, without deletions
+/// and with the row one offset-width behind the first hole deleted
+fn width_index_cases() -> Vec<Value> {
+    let mut out = vec![];
+    let mut chunks = width_range_chunks();
+    chunks.extend(width_array_chunks().into_iter().step_by(3));
+    for c in chunks {
+        let hole = c.windows(2).find(|w| w[1] > w[0] + 1).map(|w| w[0] + 1);
+        let del_pos: Vec<u32> = hole.and_then(|h| c.iter().position(|x| *x == h + W16 + 1)).map(|p| vec![p as u32]).unwrap_or_default();
+        for dels in [vec![], del_pos.clone()] {
+            out.push(json!({"kind":"index","frags":[{"id":3,"name":"width","chunks":[c],"deleted":dels}]}));
+            out.push(json!({"kind":"index","frags":[{"id":0,"name":"range","chunks":[[7_000_000u64,7_000_001u64]],"deleted":[]},{"id":70000,"name":"width","chunks":[c],"deleted":dels}]}));
         }
     }
     out
@@ -893,6 +1005,75 @@ fn index_cases(ctx: &Ctx) -> Vec<Value> {
 
 // ------------------------------------------------------------------------------------------------
 
+/// Width-boundary family for spans beyond 2^32 without materialising ids: take the encoded holes of a
+/// small RangeWithHoles segment (u16- resp. u32-encoded) and widen the segment's range; lookups are
+/// compared with arithmetic on (range, holes).
+fn wide_segment_checks(cov: &mut Cov, viol: &mut Vec<Violation>) {
+    for base in [0u64, 1000] {
+        for (holes_rel, build_len, label) in [(vec![10u64], 40u64, "u16-holes"), (vec![10, 20], 64, "u16-holes"), (vec![10, 70_000], 70_100, "u32-holes")] {
+            let ids: Vec<u64> = (base..base + build_len).filter(|x| !holes_rel.contains(&(x - base))).collect();
+            let holes_abs: Vec<u64> = holes_rel.iter().map(|h| base + h).collect();
+            let U64Segment::RangeWithHoles { holes, .. } = U64Segment::from_slice(&ids) else {
+                cov.outcome("wide-segment/encoder-chose-other-encoding");
+                continue;
+            };
+            for span in [W16 + 500, 3 * W16, W32 + 70_500, 3 * W32] {
+                if span < build_len {
+                    continue;
+                }
+                let case = json!({"kind":"wide_segment","base":base,"holes":holes_rel,"span":span});
+                cov.eval(Some(vcore::hash64(case.to_string().as_bytes())));
+                let seg = U64Segment::RangeWithHoles { range: base..base + span, holes: holes.clone() };
+                let span_class = if span > W32 { "span>2^32" } else { "span>2^16" };
+                let contains = |x: u64| x >= base && x < base + span && !holes_abs.contains(&x);
+                let position = |x: u64| if contains(x) { Some((x - base) as usize - holes_abs.iter().filter(|h| **h < x).count()) } else { None };
+                let mut probes: BTreeSet<u64> = [base, base + span - 1, base + span, base + span / 2].into_iter().collect();
+                for h in &holes_abs {
+                    for d in [0, W16, 2 * W16, W32, 2 * W32] {
+                        for e in [0i64, -1, 1] {
+                            if let Some(x) = (h + d).checked_add_signed(e) {
+                                probes.insert(x);
+                            }
+                        }
+                    }
+                }
+                let r = vcore::catch(|| {
+                    let mut bad: Vec<(String, String)> = vec![];
+                    if seg.len() as u64 != span - holes_abs.len() as u64 {
+                        bad.push(("len".into(), format!("len() = {}, expected {}", seg.len(), span - holes_abs.len() as u64)));
+                    }
+                    if seg.range() != Some(base..=base + span - 1) {
+                        bad.push(("range".into(), format!("range() = {:?}", seg.range())));
+                    }
+                    for p in &probes {
+                        if seg.contains(*p) != contains(*p) {
+                            bad.push(("contains".into(), format!("contains({p}) = {}, expected {}", seg.contains(*p), contains(*p))));
+                        }
+                        if seg.position(*p) != position(*p) {
+                            bad.push(("position".into(), format!("position({p}) = {:?}, expected {:?}", seg.position(*p), position(*p))));
+                        }
+                        if let Some(i) = position(*p) {
+                            if i <= 200_000 && seg.get(i) != Some(*p) {
+                                bad.push(("get".into(), format!("get({i}) = {:?}, expected {p}", seg.get(i))));
+                            }
+                        }
+                    }
+                    bad
+                });
+                match r {
+                    Err(p) => viol.push(Violation::new("seq-wide-segment", &format!("seq/wide-segment/panic/{label}/{span_class}"), format!("RangeWithHoles {base}..{} holes {holes_abs:?}: {p}", base + span), case)),
+                    Ok(bad) => {
+                        cov.outcome(if bad.is_empty() { "wide-segment/ok" } else { "wide-segment/FAIL" });
+                        for (c, d) in bad.into_iter().take(3) {
+                            viol.push(Violation::new("seq-wide-segment", &format!("seq/wide-segment/{c}/{label}/{span_class}"), format!("RangeWithHoles {base}..{} holes {holes_abs:?}: {d}", base + span), case.clone()));
+                        }
+                    }
+                }
+            }
+        }
+    }
+}
+
 fn violation(chunks: &[Vec<u64>], op: &Op, class: &str, detail: &str) -> Violation {
     let key = key_of(chunks, op, class);
     Violation::new(
@@ -914,6 +1095,13 @@ fn check_case(case: &Value) -> Vec<Violation> {
             }
         }
         "index" => check_index(case),
+        "wide_segment" => {
+            let mut cov = Cov::new();
+            let mut v = vec![];
+            wide_segment_checks(&mut cov, &mut v);
+            v.retain(|x| &x.case == case);
+            v
+        }
         other => vcore::machinery_error(&format!("C34 replay: unknown case kind {other:?}")),
     }
 }
@@ -931,7 +1119,9 @@ pub fn run(ctx: &Ctx) -> Outcome {
     let n_subjects = subs.len();
     let start = std::time::Instant::now();
     let capped = std::sync::atomic::AtomicU64::new(0);
-    let chunks_of_work = vcore::smallx::chunks(&subs, ctx.workers * 16);
+    let (long_subs, short_subs): (Vec<_>, Vec<_>) = subs.iter().cloned().partition(|s| s.iter().map(|c| c.len()).sum::<usize>() > 1000);
+    let mut chunks_of_work: Vec<Vec<Vec<Vec<u64>>>> = long_subs.into_iter().map(|s| vec![s]).collect();
+    chunks_of_work.extend(vcore::smallx::chunks(&short_subs, ctx.workers * 16));
     let results = vcore::par_map(chunks_of_work, ctx.workers, |_, slice| {
         let mut cov = Cov::new();
         let mut viol: BTreeMap<String, (Violation, u64)> = BTreeMap::new();
@@ -984,7 +1174,8 @@ pub fn run(ctx: &Ctx) -> Outcome {
     // (I) index
     let t_index = std::time::Instant::now();
     let capped_index = std::sync::atomic::AtomicU64::new(0);
-    let icases = index_cases(ctx);
+    let mut icases = width_index_cases();
+    icases.extend(index_cases(ctx));
     let n_index = icases.len();
     let iresults = vcore::par_map(vcore::smallx::chunks(&icases, ctx.workers * 8), ctx.workers, |_, slice| {
         let mut cov = Cov::new();
@@ -1003,6 +1194,7 @@ pub fn run(ctx: &Ctx) -> Outcome {
         (cov, v)
     });
     let mut violations: Vec<Violation> = viol.into_values().map(|(v, _)| v).collect();
+    wide_segment_checks(&mut cov, &mut violations);
     for (c, v) in iresults {
         cov.merge(c);
         violations.extend(v);
@@ -1014,7 +1206,7 @@ pub fn run(ctx: &Ctx) -> Outcome {
     cov.sample(json!({"kind":"seq_op","chunks":[[100,101,102,103],[502,500,501]],"op":{"Rechunk":{"sizes":[5,2],"allow":false,"merged":false}}}));
     cov.sample(icases[icases.len() / 2].clone());
     cov.fill(&mut out,
-        &format!("odometer over {n_subjects} subjects (all duplicate-free lists of length <= {} over {{0,1,2,3,5,8,u64::MAX-1,u64::MAX}}; one chunk per segment encoding; all ordered 2- and 3-chunk selections of the encoding pool; all 2-/3-way splits of the short lists) x all ops (every slice / id subset / position subset / sorted index list <= 3 / composition / allow-block list / ReadBatchParams shape; on sequences longer than 6 ids over probe positions = chunk boundaries, ends, middle, hole neighbours, subsets of size <= {}); {n_index} RowIdIndex configurations (1..=3 fragments of a 9-entry pool x deletion vectors). non-trivial = sequence with >= 2 ids / index with >= 2 fragments or a deletion",
+        &format!("odometer over {n_subjects} subjects (all duplicate-free lists of length <= {} over {{0,1,2,3,5,8,u64::MAX-1,u64::MAX}}; one chunk per segment encoding; width-boundary families: ranges of 2^16+300 .. 2*2^16+300 ids behind 1-2 holes and short arrays straddling 2^16 / 2^32 from their first value, alone and next to another chunk, plus RangeWithHoles segments widened beyond 2^16 / 2^32 checked by arithmetic; all ordered 2- and 3-chunk selections of the encoding pool; all 2-/3-way splits of the short lists) x all ops (every slice / id subset / position subset / sorted index list <= 3 / composition / allow-block list / ReadBatchParams shape; on sequences longer than 6 ids over probe positions = chunk boundaries, ends, middle, hole neighbours, subsets of size <= {}); {n_index} RowIdIndex configurations (1..=3 fragments of a 9-entry pool x deletion vectors). non-trivial = sequence with >= 2 ids / index with >= 2 fragments or a deletion",
             ctx.tier.pick(4, 5), if thorough { 3 } else { 2 }),
         capped == 0);
     out.set("subjects", n_subjects as u64);
